@@ -6,6 +6,16 @@ From Quill Require Backend.BEUnreg Backend.BEInv.
 From Quill Require TieCtx.
 Import ListNotations.
 Local Open Scope N_scope.
+From Quill Require TieBE ExpectedBE.
+
+(* T-src: the BackendWorker methods this property's part of M-BE re-states are, statement by statement, the ones the model
+   was written against and compared with (ExpectedBE.v; the whole loop is tied in Properties_C03.C03_tie_backend_loop) *)
+Theorem C20_tie_backend_methods :
+  QuillGen.SrcFacts.sk_be_cleanup_invalidated_thread_contexts = Quill.ExpectedBE.sk_be_cleanup_invalidated_thread_contexts /\
+  QuillGen.SrcFacts.sk_be_update_active_thread_contexts_cache = Quill.ExpectedBE.sk_be_update_active_thread_contexts_cache /\
+  QuillGen.SrcFacts.sk_be_check_frontend_queues_and_cached_transit_events_empty = Quill.ExpectedBE.sk_be_check_frontend_queues_and_cached_transit_events_empty.
+Proof. exact (conj TieBE.src_be_cleanup_invalidated_thread_contexts (conj TieBE.src_be_update_active_thread_contexts_cache TieBE.src_be_check_frontend_queues_and_cached_transit_events_empty)). Qed.
+Print Assumptions C20_tie_backend_methods.
 
 (* T-src: an exited thread's context is removed only when its queue and its transit event buffer are both empty *)
 Theorem C20_tie_ctx_removal_guard : QuillGen.SrcFacts.be_ctx_removal_requires_empty_buffer = true.
